@@ -135,8 +135,9 @@ func alphabetKeys(cfg Cfg) []Op {
 func runC03(c *Ctx) {
 	depth := 3
 	cfgs := []Cfg{{}, {Cache: true, Index: 1}, {Async: 1, Index: 2}, {Compress: true, Lower: true, MapRev: true}, {Index: 3}}
+	depth = 4
 	if c.Tier == "thorough" {
-		depth = 4
+		depth = 5
 	}
 	for _, cfg := range cfgs {
 		e := &Explorer{C: c, Cfg: cfg, Prop: "C03", Alphabet: alphabetKeys(cfg), Depth: depth, MaxLive: 3}
